@@ -50,6 +50,76 @@ func init() {
 		}
 		sort.Strings(bare)
 		o.def("codecBareReads", "List String", lstrs(bare), "loader functions containing a bare Read on their io.Reader")
+		// C08/C02 (D5): metadata is validated against the format's length fields before it is stored
+		hf := parseFile("index/hnsw.go")
+		onInsert := false
+		if ins := funcDecl(hf, "Hnsw", "Insert"); ins != nil && len(ins.Body.List) > 0 {
+			onInsert = norm(ins.Body.List[0]) == "iferr:=metadata.Validate();err!=nil{returnerr}"
+		}
+		o.def("metadataValidatedOnInsert", "Bool", lbool(onInsert), "the first statement of Hnsw.Insert returns metadata.Validate()'s error")
+		pt := parseFile("storage/partition.go")
+		before := true
+		for _, fn := range []string{"updateValue", "batchUpdateValue"} {
+			fd := funcDecl(pt, "partition", fn)
+			if fd == nil {
+				before = false
+				continue
+			}
+			b := norm(fd.Body)
+			iv, ir, ii := strings.Index(b, "metadata.Validate()"), strings.Index(b, "this.index.Remove(id)"), strings.Index(b, "this.index.Insert(")
+			im := strings.Index(b, "fork,v:=rangevertex.Metadata(){")
+			if !(im >= 0 && im < iv && iv < ir && ir < ii) {
+				before = false
+			}
+		}
+		o.def("metadataValidatedBeforeRemoveOnUpdate", "Bool", lbool(before), "updateValue and batchUpdateValue merge, validate the merged metadata, and only then remove and re-insert")
+		mf := parseFile("index/metadata.go")
+		limits := []string{}
+		consts := map[string]string{}
+		ast.Inspect(mf, func(n ast.Node) bool {
+			if vs, ok := n.(*ast.ValueSpec); ok && len(vs.Names) == 1 && len(vs.Values) == 1 {
+				consts[vs.Names[0].Name] = norm(vs.Values[0])
+			}
+			return true
+		})
+		val := func(e string) string {
+			switch e {
+			case "1<<16-1":
+				return "65535"
+			case "1<<8-1":
+				return "255"
+			}
+			return "0"
+		}
+		okUse := false
+		if v := funcDecl(mf, "Metadata", "Validate"); v != nil {
+			b := norm(v.Body)
+			okUse = strings.Contains(b, "iflen(this)>maxMetadataEntries{returnMetadataTooLargeError}") &&
+				strings.Contains(b, "iflen(k)>maxMetadataKeyLength||len(v)>maxMetadataValueLength{returnMetadataTooLargeError}")
+		}
+		if okUse {
+			limits = []string{val(consts["maxMetadataEntries"]), val(consts["maxMetadataKeyLength"]), val(consts["maxMetadataValueLength"])}
+		}
+		o.def("metadataLimits", "List Nat", "["+strings.Join(limits, ", ")+"]", "Metadata.Validate's limits: entries, key bytes, value bytes")
+		// C08: Load resets every piece of index state before it reads the body of the stream (so that
+		// loading into a used index leaves nothing of the old contents, also for the empty stream)
+		pf := parseFile("index/hnsw_persistence.go")
+		resets := []string{}
+		if ld := funcDecl(pf, "Hnsw", "Load"); ld != nil {
+			b := norm(ld.Body)
+			first := strings.Index(b, "io.ReadFull(r,uuidBuf)")
+			for _, r := range []struct{ name, pat string }{
+				{"len", "this.len=0"},
+				{"bytesSize", "this.bytesSize=0"},
+				{"entrypoint", "atomic.StorePointer(&this.entrypoint,nil)"},
+				{"vertices", "fori,_:=rangethis.vertices{this.vertices[i]=make(map[uuid.UUID]*hnswVertex)}"},
+			} {
+				if i := strings.Index(b, r.pat); i >= 0 && first >= 0 && i < first {
+					resets = append(resets, r.name)
+				}
+			}
+		}
+		o.def("hnswLoadResets", "List String", lstrs(resets), "index state that Hnsw.Load clears before its first read of the stream body")
 
 		// widths: the type conversions in Metadata.save / saveKV
 		f := parseFile("index/metadata.go")
